@@ -110,7 +110,9 @@ var messageCache = []msgCacheInfo{
 // rather substantial benefits for performance.
 func (m *Message) Free() {
 	if m != nil {
+		verifFree(m)
 		if atomic.AddInt32(&m.refcnt, -1) == 0 {
+			verifRelease(m)
 			for i := range messageCache {
 				if m.bsize == messageCache[i].maxbody {
 					messageCache[i].pool.Put(m)
@@ -126,6 +128,7 @@ func (m *Message) Free() {
 // If a read-only copy needs to be made "unique", callers can do so by
 // using the Uniq function.
 func (m *Message) Clone() {
+	verifClone(m)
 	atomic.AddInt32(&m.refcnt, 1)
 }
 
@@ -145,6 +148,7 @@ func (m *Message) MakeUnique() *Message {
 		return m
 	}
 	d := m.Dup()
+	verifUnique(m, d)
 	m.Free()
 	return d
 }
@@ -178,5 +182,6 @@ func NewMessage(sz int) *Message {
 	m.Body = m.bbuf
 	m.Header = m.hbuf
 	atomic.StoreInt32(&m.refcnt, 1)
+	verifNew(m, sz)
 	return m
 }
